@@ -492,11 +492,18 @@ def r5_conversions(ctx, prog):
     tf = M.call_blocks(b, r"populate_with_count_arg::try_from$")
     fv = M.call_blocks(b, r"populate_with_count_arg::find_value$")
     r.inst("populate_with_count_arg#try_from", "%d try_from conversions feeding %d find_value calls" % (len(tf), len(fv)))
-    if len(tf) < 14:
-        r.viol("R5:populate_with_count_arg#try_from", "only %d TryFrom conversions left (14 on the pinned tree: 7 for unsigned + 7 for signed literals)" % len(tf), file=b.file, line=b.line)
-    tfb = prog.body("populate_with_count_arg::try_from")
-    if tfb is None or not M.call_blocks(tfb, r"TryFrom<.*>>::try_from$|std::convert::TryFrom::try_from$"):
-        r.viol("R5:try_from#impl", "helper try_from no longer converts with TryFrom::try_from", file=b.file)
+    # every integer conversion of the literal count is fallible (TryFrom / TryInto), in this function and in the helpers nested in it:
+    # no integer `as` cast anywhere in the family (checked above for the body itself, here for the nested helpers)
+    fam_ = [bb for n2, bb in prog.bodies.items() if "::populate_with_count_arg::" in n2 and "ranges::" in n2]
+    conv = 0
+    for bb in fam_ + [b]:
+        conv += len(M.call_blocks(bb, r"TryFrom<.*>>::try_from$|std::convert::TryFrom::try_from$|TryInto<.*>>::try_into$|std::convert::TryInto::try_into$"))
+        for i2, j2, s2 in bb.assigns():
+            rv2 = s2["rv"]
+            if bb is not b and rv2["k"] == "Cast" and rv2["cast"] in ("IntToInt", "FloatToInt", "IntToFloat"):
+                r.viol("R5:populate_with_count_arg#cast", "lossy `as` cast (%s -> %s) of the literal count in %s (line %d)" % (rv2["cast"], rv2["ty"], bb.name.split("::")[-1], s2["line"]), file=bb.file, line=s2["line"])
+    if conv < 1:
+        r.viol("R5:populate_with_count_arg#try_from", "no fallible integer conversion (TryFrom / TryInto) is left between the literal count and the typed branches", file=b.file, line=b.line)
     number_forms(prog, r, "R5")
     return r
 
@@ -526,7 +533,7 @@ def number_forms(prog, r, rid):
                 ok = got == "Option#None()"
                 w = "None: a fractional number is not an integer bound"
             else:
-                ok = re.match(r"^Result::ok\((?:TryFrom)?::try_from\(v\)\)$", got) is not None
+                ok = re.match(r"^Result::ok\(((?:TryFrom)?::try_from|TryInto::try_into)\(v\)\)$", got) is not None
                 w = "%s::try_from(v).ok(): exactly the values the type can hold" % ty
             if ok:
                 n_ok += 1
